@@ -41,13 +41,22 @@ def gclass(G):
     return "inversion" if G.contains_inversion else "improper-noinv"
 
 
-def orbit(Gl, Gr, m):
-    """all gl*m*gr with PROPER gl, gr -> (n, 4)"""
+def code_pairs(Gl, Gr):
+    """the pairs (gl, gr) of quaternion parts the reduction runs over, in the code's order: proper x proper, then
+    improper x improper (two improper operations map a misorientation to an equivalent proper one; repair 91fe48e)"""
+    D1, I1 = Gl.data.reshape(-1, 4), Gl.improper.reshape(-1)
+    D2, I2 = Gr.data.reshape(-1, 4), Gr.improper.reshape(-1)
     out = []
-    for a in proper_elems(Gl):
-        for b in proper_elems(Gr):
-            out.append(qmul(qmul(a, m), b))
-    return np.array(out)
+    for flag in (False, True):
+        for a in D1[I1 == flag]:
+            for b in D2[I2 == flag]:
+                out.append((a, b))
+    return out
+
+
+def orbit(Gl, Gr, m):
+    """all gl*m*gr with gl, gr both proper or both improper -> (n, 4)"""
+    return np.array([qmul(qmul(a, m), b) for a, b in code_pairs(Gl, Gr)])
 
 
 def check_pair(Gl, Gr, ms, label):
@@ -71,8 +80,9 @@ def check_pair(Gl, Gr, ms, label):
         fail("reduce:improper-result", "reduction returns an improper rotation", rep)
     inside = red < region
     again = red.map_into_symmetry_reduced_zone()
-    # the loop runs over the PROPER operations of both groups (after repair of the -4 defect)
-    cases.append({"Gl": proper_elems(Gl).tolist(), "Gr": proper_elems(Gr).tolist(),
+    # the loop runs over the pairs of two proper or two improper operations (repairs cae3bbd, 91fe48e)
+    cp = code_pairs(Gl, Gr)
+    cases.append({"pairs": [[a.tolist(), b.tolist()] for a, b in cp],
                   "N": region.data.reshape(-1, 4).tolist(), "m": ms.tolist(), "out": red.data.reshape(-1, 4).tolist(),
                   "inside_in": (M < region).reshape(-1).astype(int).tolist(), "pair": [Gl.name, Gr.name]})
     for k in range(len(ms)):
@@ -82,7 +92,7 @@ def check_pair(Gl, Gr, ms, label):
         rk = dict(rep, k=k)
         in_orbit = np.max(np.abs(orb @ r)) > 1 - 1e-9
         if not in_orbit:
-            fail(f"reduce:not-in-orbit:{cl}", f"result is not gl*M*gr for proper gl, gr of ({Gl.name}, {Gr.name})", rk)
+            fail(f"reduce:not-in-orbit:{cl}", f"result is not gl*M*gr for two proper or two improper operations gl, gr of ({Gl.name}, {Gr.name})", rk)
         if abs(r[0]) < best - 1e-7:
             fail(f"reduce:not-minimal:{cl}", f"result angle {np.rad2deg(2*np.arccos(min(1,abs(r[0])))):.3f} deg is not the smallest in the orbit ({np.rad2deg(2*np.arccos(min(1,best))):.3f}) for ({Gl.name}, {Gr.name})", rk)
         if not inside.reshape(-1)[k]:
@@ -90,8 +100,11 @@ def check_pair(Gl, Gr, ms, label):
         if not (abs(float(np.dot(again.data.reshape(-1, 4)[k], r))) > 1 - 1e-9):
             fail(f"reduce:not-idempotent:{cl}", "reducing twice changes the result", rk)
     # same representative for the whole orbit, except on region boundaries
-    pl, pr = proper_elems(Gl), proper_elems(Gr)
-    eq = np.array([qmul(qmul(pl[R.randrange(len(pl))], m), pr[R.randrange(len(pr))]) for m in ms])
+    eq = []
+    for m in ms:
+        a, b = cp[R.randrange(len(cp))]
+        eq.append(qmul(qmul(a, m), b))
+    eq = np.array(eq)
     red2 = Misorientation(eq, symmetry=(Gl, Gr)).map_into_symmetry_reduced_zone()
     nd = np.abs(region.data.reshape(-1, 4) @ red.data.reshape(-1, 4).T) if region.size else np.ones((1, len(ms)))
     for k in range(len(ms)):
@@ -123,10 +136,36 @@ for Gl, Gr in psel:
     npts = 40 if {Gl.system, Gr.system} & {"cubic"} and {Gl.system, Gr.system} & {"hexagonal", "trigonal"} else 6
     ms = np.array([rand_unit_quat(R) for _ in range(npts)])
     check_pair(Gl, Gr, ms, "misorientation")
-for names in [("m-3m", "m-3m"), ("m-3m", "6/mmm"), ("4/mmm", "mmm"), ("m-3", "-3m"), ("-4", "1"), ("4mm", "1"), ("432", "m-3m")]:
-    Gl, Gr = BYNAME[names[0]], BYNAME[names[1]]
-    ms = np.array([rand_unit_quat(R) for _ in range(30)])
-    check_pair(Gl, Gr, ms, "misorientation")
+# every combination of group classes (proper / with inversion / improper without inversion; a region is defined for
+# all but the last with itself), each with a cubic x hexagonal-or-trigonal pair in BOTH orders: only there do the
+# two groups not commute as sets, so that a region built for the swapped or the wrong pair of groups shows
+CUBIC = {"proper": ["432", "23"], "inversion": ["m-3m", "m-3"], "improper-noinv": ["-43m"]}
+HEXTRIG = {"proper": ["622", "32", "6", "312"], "inversion": ["6/mmm", "-3m", "6/m"], "improper-noinv": ["-6m2", "3m", "6mm", "-6"]}
+OTHER = {"proper": ["422", "222", "1"], "inversion": ["4/mmm", "mmm", "-1"], "improper-noinv": ["-42m", "mm2", "m11", "-4", "4mm"]}
+for ca in ("proper", "inversion", "improper-noinv"):
+    for cb in ("proper", "inversion", "improper-noinv"):
+        if ca == cb == "improper-noinv":
+            continue
+        sel = []
+        ncub = 1 if not THOROUGH else len(CUBIC[ca]) * len(HEXTRIG[cb])
+        allab = [(a, b) for a in CUBIC[ca] for b in HEXTRIG[cb]]
+        allba = [(a, b) for a in HEXTRIG[ca] for b in CUBIC[cb]]
+        sel += (allab if THOROUGH else [allab[0]] + R.sample(allab[1:], min(1, len(allab) - 1)))
+        sel += (allba if THOROUGH else [allba[0]] + R.sample(allba[1:], min(1, len(allba) - 1)))
+        oth = [(a, b) for a in OTHER[ca] + CUBIC[ca][:1] for b in OTHER[cb] + HEXTRIG[cb][:1]]
+        sel += (oth if THOROUGH else R.sample(oth, 2))
+        for na, nb in sel:
+            Gl, Gr = BYNAME[na], BYNAME[nb]
+            hard = {Gl.system, Gr.system} & {"cubic"} and {Gl.system, Gr.system} & {"hexagonal", "trigonal"}
+            npts = (80 if hard else 12) if not THOROUGH else (200 if hard else 30)
+            ms = np.array([rand_unit_quat(R) for _ in range(npts)])
+            check_pair(Gl, Gr, ms, "misorientation-classes")
+if THOROUGH:
+    # every ordered pair of the 38 groups for which a region is defined
+    for Gl in GROUPS:
+        for Gr in GROUPS:
+            ms = np.array([rand_unit_quat(R) for _ in range(8)])
+            check_pair(Gl, Gr, ms, "misorientation-all")
 
 # boundary strata: points on / within 1e-9 of faces and vertices of a region
 for G in (BYNAME["432"], BYNAME["622"], BYNAME["222"]):
